@@ -10,7 +10,9 @@ def main():
     tier = 'quick'
     if '--tier' in a:
         tier = a[a.index('--tier') + 1]; a = [x for x in a if x not in ('--tier', tier)]
-    names = sorted(os.listdir(os.path.join(HERE, 'seeded'))) if a[0] == 'all' else [a[0]]
+    # 'all' = the changes made against one property (rounds m / n / r); behaviour-preserving (b) and cross-property (x)
+    # changes are judged by tools/eval_benign.py and tools/eval_cross.py
+    names = sorted(n for n in os.listdir(os.path.join(HERE, 'seeded')) if n.split('-')[-1][0] in 'mnr') if a[0] == 'all' else [a[0]]
     for name in names:
         d = os.path.join(HERE, 'seeded', name)
         mp = os.path.join(d, 'meta.json')
